@@ -44,6 +44,9 @@ PANICKY_STD = {
 TRANSPARENT = ("clone", "as_ref", "as_mut", "borrow", "borrow_mut", "deref", "deref_mut", "to_owned", "to_string", "into", "as_str", "as_slice", "cloned", "copied", "as_deref", "to_vec", "iter", "into_iter", "by_ref")
 
 
+LEGACY_KEYS = bool(os.environ.get("VERIF_LEGACY_KEYS"))
+
+
 class Site:
     def __init__(self, body, kind, node, what, operand=None):
         self.body = body
@@ -63,8 +66,15 @@ class Site:
         """stable review key: function, operation and the *shape* of the operand's producer --
         callee names, struct field names and literals are kept, local variable names are not
         (renaming a variable must not invalidate a review)"""
-        o = shape_str(self.origin) if self.origin is not None else ""
-        return "%s|%s|%s|%s" % (self.kind, self.body.short, self.what, o)
+        xo = getattr(self, "xorigin", None)
+        if LEGACY_KEYS or xo is None:
+            o = shape_str(self.origin) if self.origin is not None else ""
+            return "%s|%s|%s|%s" % (self.kind, self.body.short, self.what, o)
+        # named single-definition locals are expanded (hoisting an expression into a variable, or
+        # inlining one, keeps the key) and closures are keyed by their enclosing function (closure
+        # numbers shift when another closure is added)
+        fn = self.body.short.split("::{closure")[0]
+        return "%s|%s|%s|%s" % (self.kind, fn, self.what, shape_str(xo))
 
 
 def is_panic_call(nm):
@@ -142,7 +152,11 @@ def shape(d):
     if k == "tmp":
         return ("place", "_")
     if k == "call":
-        return ("call", d[1], tuple(shape(x) for x in d[2]))
+        nm = d[1]
+        if nm.endswith("IndexMut::index_mut"):
+            # `v[i]` borrowed mutably or not is the same bounds check
+            nm = nm[: -len("IndexMut::index_mut")] + "Index::index"
+        return ("call", nm, tuple(shape(x) for x in d[2]))
     if k in ("unop",):
         return (k, d[1], shape(d[2]))
     if k == "binop":
@@ -164,13 +178,42 @@ def shape_str(d):
     return re.sub(r"\b_\d+\b", "_", fmt_desc(shape(norm(d))))
 
 
+def expand_names(fl, d, depth=5):
+    """replace named single-definition locals (and unresolved temporaries) by the description of
+    their definition"""
+    if not isinstance(d, tuple) or depth <= 0:
+        return d
+    k = d[0]
+    if k in ("place", "tmp"):
+        from engines import value_of_named
+
+        v = value_of_named(fl, d[1])
+        if v is None:
+            return d
+        v = norm(v)
+        if not isinstance(v, tuple) or v[0] not in ("call", "binop", "unop", "index"):
+            # a pattern binding / re-borrow of a place: still "some variable"
+            return d
+        return expand_names(fl, v, depth - 1)
+    if k == "call":
+        return ("call", d[1], tuple(expand_names(fl, x, depth - 1) for x in d[2]))
+    if k == "unop":
+        return ("unop", d[1], expand_names(fl, d[2], depth - 1))
+    if k == "binop":
+        return ("binop", d[1], expand_names(fl, d[2], depth - 1), expand_names(fl, d[3], depth - 1))
+    if k == "index":
+        return ("index", expand_names(fl, d[1], depth - 1), expand_names(fl, d[2], depth - 1))
+    return d
+
+
 def origin_of(fl, site):
     """describe the producer of the value being unwrapped / indexed"""
     if site.operand is None:
         return None
     d = norm(fl.describe(site.operand, depth=12))
     if site.kind == "index" and len(site.node.args) > 1:
-        return ("index", d, norm(fl.describe(site.node.args[1], depth=8)))
+        d = ("index", d, norm(fl.describe(site.node.args[1], depth=8)))
+    site.xorigin = norm(expand_names(fl, d))
     return d
 
 
@@ -178,19 +221,7 @@ def origin_of(fl, site):
 
 
 def _reach_without_edge(body, edge):
-    a, s = edge
-    seen = set()
-    st = [0]
-    while st:
-        x = st.pop()
-        if x in seen:
-            continue
-        seen.add(x)
-        for y in body.succ(x):
-            if x == a and y == s:
-                continue
-            st.append(y)
-    return seen
+    return body.reach_avoiding_edges([edge])
 
 
 def bool_atoms(fl):
